@@ -725,8 +725,9 @@ func c19(args []string) int {
 			// every field MOSN uses, shadow copies excluded
 			t0 := sv.tree(reflect.ValueOf(res.Cfg0), nil)
 			t1 := sv.tree(reflect.ValueOf(res.Cfg1), nil)
+			lastDiffX, lastDiffY = nil, nil
 			if d := treeDiff("", t0, t1); d != "" {
-				run.Fail("reload-changes-loaded-config:"+pathClass(d), fmt.Sprintf("%s %s: the configuration loaded from the dump differs from the loaded configuration at %s (both dumps are identical)", kind, name, d), replay)
+				run.Fail("reload-changes-loaded-config:"+pathClass(d), fmt.Sprintf("%s %s: the configuration loaded from the dump differs from the loaded configuration at %s: loaded %s, after dump and reload %s (both dumps are identical)", kind, name, d, showDiffValue(lastDiffX), showDiffValue(lastDiffY)), replay)
 			}
 			run.Sum.Distribution["loaded-configs-compared"]++
 		}
@@ -768,7 +769,7 @@ func c19(args []string) int {
 	respellRng = r
 	defer func() { respellRng = nil }()
 	for i := 0; i < nGen; i++ {
-		f := &filler{r: r, maxDepth: 9, tmp: tmp, dirPct: 30, noTLS: false}
+		f := &filler{r: r, maxDepth: 9, tmp: tmp, dirPct: 30, noTLS: false, hostile: true}
 		b := genConfig(f, r, tmp, i)
 		if b == nil {
 			run.Sum.Distribution["gen:marshal-error"]++
@@ -921,7 +922,7 @@ func c19(args []string) int {
 	run.Sum.Extra["graph_structs"] = len(g.structs)
 	for _, st := range pureTypes {
 		for k := 0; k < run.N(2, 12); k++ {
-			f := &filler{r: r, maxDepth: 6, noTLS: true}
+			f := &filler{r: r, maxDepth: 6, noTLS: true, hostile: true}
 			v := reflect.New(st.T)
 			f.fill(v.Elem(), 0, st.Name)
 			b, err := json.Marshal(v.Interface())
@@ -957,7 +958,7 @@ func c19(args []string) int {
 		}
 		nPairs++
 		for k := 0; k < run.N(3, 15); k++ {
-			f := &filler{r: r, maxDepth: 7, noTLS: true}
+			f := &filler{r: r, maxDepth: 7, noTLS: true, hostile: true}
 			v := reflect.New(st.T)
 			f.fill(v.Elem(), 0, st.Name)
 			b, err := json.Marshal(v.Interface())
@@ -985,6 +986,60 @@ func c19(args []string) int {
 		}
 	}
 	run.Sum.Extra["shadow_hook_closure_types"] = nPairs
+	// (b2) subset metadata in the INPUT text: string members that another reading would re-type (non-canonical numerals, the
+	// JSON literals as strings), and members that are not strings at all - what the real Unmarshal makes of them, what the
+	// real Marshal prints for the result, against the model (decode / encode of the same type)
+	metaDocs := []string{
+		`{"mosn.lb":{"version":"1.10","zeros":"007","exp":"1e3","plus":"+1","dot":"1.","half":".5","hex":"0x10","neg0":"-0","one0":"1.0","t":"true","f":"false","n":"null","T":"TRUE","e":""," ":" ","q":"\"q\"","u":"h\u00e9"}}`,
+		`{"mosn.lb":{"version":"1.1","n":2,"f":1.5,"x":1000,"b":true,"c":false,"z":null,"o":{"a":"b"},"l":["x"],"s":"gray"}}`, // (numbers in canonical spelling: the model keeps number literals, Go re-spells them through float64)
+		`{"mosn.lb":{"n":2}}`, `{"mosn.lb":{}}`, `{"mosn.lb":null}`, `{}`,
+	}
+	for _, st := range g.structs {
+		member := map[string]string{"v2.Host": "metadata", "v2.Router": "metadata", "v2.RouteAction": "metadata_match", "v2.ClusterWeight": "metadata_match"}[st.Name]
+		if member == "" {
+			continue
+		}
+		for _, md := range metaDocs {
+			doc := fmt.Sprintf(`{%q:{"filter_metadata":%s}}`, member, md)
+			{ // members in sorted order (the printer lists Go maps sorted by key, the model keeps document order)
+				dec := json.NewDecoder(strings.NewReader(doc))
+				dec.UseNumber()
+				var x interface{}
+				if dec.Decode(&x) == nil {
+					if b, err := json.Marshal(x); err == nil {
+						doc = string(b)
+					}
+				}
+			}
+			back := reflect.New(st.T)
+			if err := json.Unmarshal([]byte(doc), back.Interface()); err != nil {
+				run.Sum.Distribution["model:metadata-doc-unmarshal-error"]++
+				continue
+			}
+			j, err := jsonToCoq([]byte(doc))
+			if err != nil {
+				continue
+			}
+			pr := newVPrinter(false)
+			bv := pr.val(back.Elem())
+			add(fmt.Sprintf("(DecHCase (TNamed %s, %s, %s))", coqStr(st.Name), j, bv), map[string]interface{}{"kind": "decode-metadata-doc", "type": st.Name, "doc": doc})
+			if b2, err := json.Marshal(back.Interface()); err == nil {
+				if j2, err := jsonToCoq(b2); err == nil {
+					add(fmt.Sprintf("(EncCase (TNamed %s, %s, %s))", coqStr(st.Name), bv, j2), map[string]interface{}{"kind": "encode-metadata-doc", "type": st.Name, "doc": doc})
+				}
+				// the loaded value itself must survive its own dump and reload (not only print the same)
+				again := reflect.New(st.T)
+				if err := json.Unmarshal(b2, again.Interface()); err == nil {
+					sv := &semView{g: g}
+					lastDiffX, lastDiffY = nil, nil
+					if d := treeDiff("", sv.tree(back.Elem(), nil), sv.tree(again.Elem(), nil)); d != "" {
+						run.Fail("reload-changes-loaded-config:"+st.Name+pathClass(d), fmt.Sprintf("%s loaded from %s: after dump and reload %s differs: loaded %s, reloaded %s", st.Name, doc, d, showDiffValue(lastDiffX), showDiffValue(lastDiffY)), map[string]interface{}{"type": st.Name, "doc": doc, "dump": string(b2)})
+					}
+				}
+			}
+			run.Sum.Distribution["model:metadata-doc-case"]++
+		}
+	}
 	// (b'') path-mode file naming: the file the real marshalers write for an item name, against the model of the
 	// operation order read from the source
 	fileCase := func(router bool, name string) {
@@ -1499,7 +1554,7 @@ func (sv *semView) tree(v reflect.Value, skip [][]string) interface{} {
 	case reflect.Map:
 		out := map[string]interface{}{}
 		for _, k := range v.MapKeys() {
-			out[fmt.Sprint(k.Interface())] = sv.tree(v.MapIndex(k), nil)
+			out["["+fmt.Sprint(k.Interface())+"]"] = sv.tree(v.MapIndex(k), nil) // (bracketed: the signature keeps the position, not the key)
 		}
 		return out
 	case reflect.Interface:
@@ -1609,9 +1664,20 @@ func treeDiff(p string, x, y interface{}) string {
 		return ""
 	}
 	if !reflect.DeepEqual(x, y) {
+		lastDiffX, lastDiffY = x, y
 		return p
 	}
 	return ""
+}
+
+var lastDiffX, lastDiffY interface{}
+
+func showDiffValue(x interface{}) string {
+	b, err := json.Marshal(x)
+	if err != nil || len(b) > 200 {
+		return fmt.Sprintf("%.200v", x)
+	}
+	return string(b)
 }
 
 // ---------------------------------------------------------------------------------------------------------------
@@ -1874,6 +1940,21 @@ func respellDurations(doc []byte) []byte {
 		case map[string]interface{}:
 			for k, e := range t {
 				t[k] = walk(e)
+			}
+			// subset metadata given as numbers / booleans / null / nested values in the INPUT (api.Metadata holds strings):
+			// pins what a load does with them
+			if lb, ok := t["mosn.lb"].(map[string]interface{}); ok && r.Pct(40) {
+				extra := []struct {
+					k string
+					v interface{}
+				}{{"n-int", json.Number("2")}, {"n-noncanon", json.Number("1.10")}, {"n-exp", json.Number("1e3")}, {"b-true", true}, {"b-false", false},
+					{"null", nil}, {"obj", map[string]interface{}{"a": "b"}}, {"arr", []interface{}{"x"}}, {"s-noncanon", "1.10"}, {"s-true", "true"}, {"s-zeros", "007"}}
+				for i, n := 0, 1+r.Intn(4); i < n; i++ {
+					e := extra[r.Intn(len(extra))]
+					lb[e.k] = e.v
+				}
+				changed = true
+				respellCount["metadata-input:non-string-or-numeral-members"]++
 			}
 		case []interface{}:
 			for i, e := range t {
